@@ -36,6 +36,13 @@ const (
 	evSyncBegin
 	evSnapshot
 	evSyncRet
+	evUnblockAgain // a second Unblock() of an already released block (documented as safe)
+	// journal-only record kinds (what the plugins saw), see crashObs
+	jPlugSync   // [_, stamp, p, n]
+	jPlugSyncID // [_, n, p, id]
+	jPlugGot    // [_, 0, p, c]
+	jSnapID     // [_, 0, n, id]
+	jPlugStart  // [_, 0, p, 0]   stub.Start returned nil
 )
 
 // In is one generated case: a schedule *generator* configuration (the schedule itself is the
@@ -58,6 +65,7 @@ type In struct {
 	DwellUs   int    `json:"dwell_us"`   // how long UpdateFn keeps the adaptation mutex
 	SyncLagUs int    `json:"synclag_us"` // SyncFn dwells this long between snapshot delivery and returning
 	FailSync  []int  `json:"fail_sync"`  // plugins whose Synchronize handler returns an error (never activated)
+	DblPct    int    `json:"dbl_pct"`    // percentage of blocks released twice: `defer b.Unblock()` + an explicit early Unblock()
 	Seed      int64  `json:"seed"`
 }
 
@@ -76,7 +84,7 @@ type PlugObs struct {
 }
 
 type Obs struct {
-	Status  string    `json:"status"` // ok | blocked | error
+	Status  string    `json:"status"` // ok | blocked | error | crashed (history = what the journal holds)
 	Note    string    `json:"note"`
 	Ev      [][]int64 `json:"ev"`    // [kind, seq, a, b], sorted by seq
 	Snaps   [][]int64 `json:"snaps"` // per SyncFn invocation: ids handed to the callback
@@ -105,6 +113,23 @@ type env struct {
 	note  atomic.Value
 
 	pod *api.PodSandbox
+	j   *rt.Journal
+}
+
+// app appends a log entry and mirrors it into the crash-surviving journal
+func (e *env) app(log [][]int64, r []int64) [][]int64 {
+	var x, y, z int64
+	if len(r) > 1 {
+		x = r[1]
+	}
+	if len(r) > 2 {
+		y = r[2]
+	}
+	if len(r) > 3 {
+		z = r[3]
+	}
+	e.j.Put(r[0], x, y, z)
+	return append(log, r)
 }
 
 func cid(s string) int64 {
@@ -126,6 +151,11 @@ func (e *env) syncFn(ctx context.Context, cb adaptation.SyncCB) error {
 	ids := append([]int64(nil), e.store...)
 	sSnap := rt.Stamp()
 	e.storeMu.Unlock()
+	e.j.Put(evSyncBegin, sBegin, n, 0)
+	e.j.Put(evSnapshot, sSnap, n, 0)
+	for _, id := range ids {
+		e.j.Put(jSnapID, 0, n, id)
+	}
 	pods := []*api.PodSandbox{rt.Pod(fmt.Sprintf("sync-%d", n))}
 	ctrs := make([]*api.Container, 0, len(ids))
 	for _, id := range ids {
@@ -138,6 +168,7 @@ func (e *env) syncFn(ctx context.Context, cb adaptation.SyncCB) error {
 		bad = 1
 	}
 	sRet := rt.Stamp() // before finishedPluginSync
+	e.j.Put(evSyncRet, sRet, n, bad)
 	e.logMu.Lock()
 	e.sev = append(e.sev, []int64{evSyncBegin, sBegin, n}, []int64{evSnapshot, sSnap, n}, []int64{evSyncRet, sRet, n, bad})
 	for int64(len(e.snaps)) <= n {
@@ -165,11 +196,19 @@ func spin(us int) {
 	}
 }
 
-// one block with k creations inside; returns the log entries
-func (e *env) blockWith(log [][]int64, k int, relayFirst func() bool) [][]int64 {
+// one block with k creations inside; returns the log entries. With dbl the goroutine uses the
+// pattern `b := BlockPluginSync(); defer b.Unblock(); …; b.Unblock()`: an explicit early
+// release followed by the deferred one, which the API documents as safe.
+func (e *env) blockWith(log [][]int64, k int, relayFirst func() bool, dbl bool) (out [][]int64) {
 	bid := e.nextB.Add(1) - 1
 	b := e.rt.A.BlockPluginSync()
-	log = append(log, []int64{evBlock, rt.Stamp(), bid})
+	log = e.app(log, []int64{evBlock, rt.Stamp(), bid})
+	if dbl {
+		defer func() {
+			out = e.app(out, []int64{evUnblockAgain, rt.Stamp(), bid})
+			b.Unblock()
+		}()
+	}
 	for i := 0; i < k; i++ {
 		c := e.nextC.Add(1) - 1
 		relay := func() {
@@ -180,12 +219,13 @@ func (e *env) blockWith(log [][]int64, k int, relayFirst func() bool) [][]int64 
 				e.errs.Add(1)
 				e.note.Store("CreateContainer: " + err.Error())
 			}
-			log = append(log, []int64{evRelay, rt.Stamp(), bid, c})
+			log = e.app(log, []int64{evRelay, rt.Stamp(), bid, c})
 		}
 		record := func() {
 			e.storeMu.Lock()
 			e.store = append(e.store, c)
 			s := rt.Stamp()
+			e.j.Put(evRecord, s, bid, c)
 			e.storeMu.Unlock()
 			log = append(log, []int64{evRecord, s, bid, c})
 		}
@@ -197,12 +237,12 @@ func (e *env) blockWith(log [][]int64, k int, relayFirst func() bool) [][]int64 
 			relay()
 		}
 	}
-	log = append(log, []int64{evUnblock, rt.Stamp(), bid})
+	log = e.app(log, []int64{evUnblock, rt.Stamp(), bid})
 	b.Unblock()
 	return log
 }
 
-func runCase(in In, dir string) (obs Obs) {
+func runCase(in In, dir string, j *rt.Journal) (obs Obs) {
 	t0 := time.Now()
 	obs.Status = "ok"
 	defer func() {
@@ -216,7 +256,7 @@ func runCase(in In, dir string) (obs Obs) {
 		prev := runtime.GOMAXPROCS(in.Procs)
 		defer runtime.GOMAXPROCS(prev)
 	}
-	e := &env{in: in, pod: rt.Pod("pod0")}
+	e := &env{in: in, pod: rt.Pod("pod0"), j: j}
 	e.note.Store("")
 	r, err := rt.NewRuntime(dir, e.syncFn, e.updateFn)
 	if err != nil {
@@ -240,6 +280,14 @@ func runCase(in In, dir string) (obs Obs) {
 		defer rndMu.Unlock()
 		return rnd.Intn(2) == 0
 	}
+	dblFn := func() bool {
+		if in.DblPct <= 0 {
+			return false
+		}
+		rndMu.Lock()
+		defer rndMu.Unlock()
+		return rnd.Intn(100) < in.DblPct
+	}
 	batchFn := func() int {
 		if in.Batch <= 1 {
 			return 1
@@ -251,7 +299,7 @@ func runCase(in In, dir string) (obs Obs) {
 
 	var mainLog [][]int64
 	for i := 0; i < in.Pre; i++ {
-		mainLog = e.blockWith(mainLog, 1, orderFn)
+		mainLog = e.blockWith(mainLog, 1, orderFn, false)
 	}
 
 	// plugins
@@ -276,6 +324,10 @@ func runCase(in In, dir string) (obs Obs) {
 				for _, c := range ctrs {
 					ids = append(ids, cid(c.Id))
 				}
+				e.j.Put(jPlugSync, s, int64(i), n)
+				for _, id := range ids {
+					e.j.Put(jPlugSyncID, n, int64(i), id)
+				}
 				pmu[i].Lock()
 				pobs[i].Syncs = append(pobs[i].Syncs, SyncObs{S: s, N: n, Ids: ids})
 				pmu[i].Unlock()
@@ -287,6 +339,7 @@ func runCase(in In, dir string) (obs Obs) {
 				return nil
 			},
 			Create: func(_ *api.PodSandbox, c *api.Container) {
+				e.j.Put(jPlugGot, 0, int64(i), cid(c.Id))
 				pmu[i].Lock()
 				pobs[i].Got = append(pobs[i].Got, cid(c.Id))
 				pmu[i].Unlock()
@@ -325,6 +378,7 @@ func runCase(in In, dir string) (obs Obs) {
 					pmu[i].Unlock()
 					return
 				}
+				e.j.Put(jPlugStart, 0, int64(i), 0)
 				pmu[i].Lock()
 				pobs[i].Started = true
 				pmu[i].Unlock()
@@ -363,7 +417,7 @@ func runCase(in In, dir string) (obs Obs) {
 						}
 						extra++
 					}
-					clogs[g] = e.blockWith(clogs[g], batchFn(), orderFn)
+					clogs[g] = e.blockWith(clogs[g], batchFn(), orderFn, dblFn())
 				}
 			}()
 		}
@@ -376,7 +430,7 @@ func runCase(in In, dir string) (obs Obs) {
 		// configured; a container is created inside it; only then is it released
 		bid := e.nextB.Add(1) - 1
 		b := r.A.BlockPluginSync()
-		mainLog = append(mainLog, []int64{evBlock, rt.Stamp(), bid})
+		mainLog = e.app(mainLog, []int64{evBlock, rt.Stamp(), bid})
 		startPlugins()
 		// the plugins connect meanwhile; registrations are accepted one at a time, so the
 		// first one gets as far as requestPluginSync and waits there, the others wait
@@ -389,13 +443,13 @@ func runCase(in In, dir string) (obs Obs) {
 			e.errs.Add(1)
 			e.note.Store("CreateContainer: " + err.Error())
 		}
-		mainLog = append(mainLog, []int64{evRelay, rt.Stamp(), bid, c})
+		mainLog = e.app(mainLog, []int64{evRelay, rt.Stamp(), bid, c})
 		e.storeMu.Lock()
 		e.store = append(e.store, c)
 		s := rt.Stamp()
 		e.storeMu.Unlock()
-		mainLog = append(mainLog, []int64{evRecord, s, bid, c})
-		mainLog = append(mainLog, []int64{evUnblock, rt.Stamp(), bid})
+		mainLog = e.app(mainLog, []int64{evRecord, s, bid, c})
+		mainLog = e.app(mainLog, []int64{evUnblock, rt.Stamp(), bid})
 		b.Unblock()
 		startCreators()
 	default:
@@ -526,6 +580,9 @@ func generate(o *hx.Opts) []In {
 		if r.Intn(4) == 0 {
 			in.SyncLagUs = []int{50, 200, 1000}[r.Intn(3)]
 		}
+		if r.Intn(3) == 0 {
+			in.DblPct = []int{5, 20, 50}[r.Intn(3)]
+		}
 		in.FailSync = []int{}
 		if r.Intn(8) == 0 && in.P > 1 {
 			for p := 1; p < in.P; p++ { // plugin 0 (the contender) always succeeds
@@ -562,6 +619,74 @@ func workers() int {
 	return 4
 }
 
+// crashObs rebuilds the observation of a case whose worker died from the journal: the history
+// up to the crash, with status "crashed".
+func crashObs(in In, c rt.Crashed) Obs {
+	obs := Obs{Status: "crashed", Note: c.Note, Ev: [][]int64{}, Snaps: [][]int64{}, Store: []int64{}}
+	idx, recs, err := rt.ReadJournal(filepath.Join(c.Scratch, "journal.bin"))
+	for p := 0; p < in.P; p++ {
+		obs.Plugins = append(obs.Plugins, PlugObs{P: p, Syncs: []SyncObs{}, Got: []int64{}})
+	}
+	if err != nil || idx != c.At {
+		obs.Note += " (no journal for this case)"
+		return obs
+	}
+	for _, r := range recs {
+		switch r[0] {
+		case evBlock, evUnblock, evUnblockAgain, evSyncBegin, evSnapshot:
+			obs.Ev = append(obs.Ev, []int64{r[0], r[1], r[2]})
+		case evRelay, evRecord, evSyncRet:
+			obs.Ev = append(obs.Ev, []int64{r[0], r[1], r[2], r[3]})
+		case jSnapID:
+			for int64(len(obs.Snaps)) <= r[2] {
+				obs.Snaps = append(obs.Snaps, []int64{})
+			}
+			obs.Snaps[r[2]] = append(obs.Snaps[r[2]], r[3])
+		case jPlugSync:
+			if p := int(r[2]); p >= 0 && p < len(obs.Plugins) {
+				obs.Plugins[p].Syncs = append(obs.Plugins[p].Syncs, SyncObs{S: r[1], N: r[3], Ids: []int64{}})
+			}
+		case jPlugSyncID:
+			if p := int(r[2]); p >= 0 && p < len(obs.Plugins) {
+				for k := range obs.Plugins[p].Syncs {
+					if obs.Plugins[p].Syncs[k].N == r[1] {
+						obs.Plugins[p].Syncs[k].Ids = append(obs.Plugins[p].Syncs[k].Ids, r[3])
+					}
+				}
+			}
+		case jPlugGot:
+			if p := int(r[2]); p >= 0 && p < len(obs.Plugins) {
+				obs.Plugins[p].Got = append(obs.Plugins[p].Got, r[3])
+			}
+		case jPlugStart:
+			if p := int(r[2]); p >= 0 && p < len(obs.Plugins) {
+				obs.Plugins[p].Started = true
+			}
+		}
+	}
+	sort.Slice(obs.Ev, func(i, j int) bool { return obs.Ev[i][1] < obs.Ev[j][1] })
+	for _, e := range obs.Ev {
+		if e[0] == evRecord {
+			obs.Store = append(obs.Store, e[3])
+		}
+	}
+	for int64(len(obs.Snaps)) < int64(countKind(obs.Ev, evSyncBegin)) {
+		obs.Snaps = append(obs.Snaps, []int64{})
+	}
+	obs.Creates = len(obs.Store)
+	return obs
+}
+
+func countKind(ev [][]int64, k int64) int {
+	n := 0
+	for _, e := range ev {
+		if e[0] == k && int(e[2])+1 > n {
+			n = int(e[2]) + 1
+		}
+	}
+	return n
+}
+
 func Run(o *hx.Opts, w *lineio.Writer) error {
 	var cases []In
 	if o.Replay != "" {
@@ -575,7 +700,14 @@ func Run(o *hx.Opts, w *lineio.Writer) error {
 				return err
 			}
 			if in.Kind == "worker" {
-				continue
+				// the case a crashed worker was running is kept inside the crash line
+				var wr struct {
+					Input *In `json:"input"`
+				}
+				if json.Unmarshal(c.In, &wr) != nil || wr.Input == nil {
+					continue
+				}
+				in = *wr.Input
 			}
 			// the schedule is the Go runtime's: a replayed configuration is re-run several
 			// times (every run is judged) so that a schedule-dependent failure reproduces
@@ -586,14 +718,23 @@ func Run(o *hx.Opts, w *lineio.Writer) error {
 	} else {
 		cases = generate(o)
 	}
+	var j *rt.Journal
+	if os.Getenv("VERIFH_SHARD") != "" {
+		j, _ = rt.OpenJournal(filepath.Join(o.Scratch, "journal.bin"), 1<<16)
+	}
+	id := func(in In, i int) string { return fmt.Sprintf("c08-%s-%d#%d", in.Kind, in.Idx, i) }
 	return rt.Sharded(o, w, "C08", len(cases), workers(), func(i int) interface{} { return cases[i] }, func(i int) *lineio.Case {
 		in := cases[i]
 		if len(in.StaggerUs) < in.P || len(in.Indices) < in.P {
-			return &lineio.Case{ID: fmt.Sprintf("c08-%d", in.Idx), In: in, Obs: Obs{Status: "error", Note: "malformed input"}}
+			return &lineio.Case{ID: id(in, i), In: in, Obs: Obs{Status: "error", Note: "malformed input"}}
 		}
 		dir := filepath.Join(o.Scratch, fmt.Sprintf("r%d", i))
-		obs := runCase(in, dir)
+		j.Reset(i)
+		obs := runCase(in, dir, j)
 		os.RemoveAll(dir)
-		return &lineio.Case{ID: fmt.Sprintf("c08-%s-%d#%d", in.Kind, in.Idx, i), In: in, Obs: obs}
+		return &lineio.Case{ID: id(in, i), In: in, Obs: obs}
+	}, func(c rt.Crashed) *lineio.Case {
+		in := cases[c.At]
+		return &lineio.Case{ID: id(in, c.At) + "-crashed", In: in, Obs: crashObs(in, c)}
 	})
 }
